@@ -33,6 +33,8 @@ def register(lib):
             return x.shape[0]
         if isinstance(x, NP.MaskedArray):
             return x.shape[0]
+        if isinstance(x, SymIntSet):
+            return x.n
         if isinstance(x, BM.BytesBase):
             return x.length
         if isinstance(x, SymSeq):
